@@ -1399,3 +1399,42 @@ Proof.
   destruct (wrun w1 (map impl_call ops)) as [w2 rs]. destruct (fspec_run st1 ops) as [st2 rs'].
   cbn [fst snd map] in *. split; [congruence|assumption].
 Qed.
+
+(* ---- witnesses --------------------------------------------------------------------------------- *)
+(* index and class of the first step of a history that kf02 classifies *)
+Fixpoint first_kf (st : fstate) (ops : list fop) (k : nat) : option (nat * finding) :=
+  match ops with
+  | [] => None
+  | op :: ops' =>
+      match kf02 st op with
+      | Some f => Some (k, f)
+      | None => first_kf (fst (fspec_step st op)) ops' (S k)
+      end
+  end.
+
+Definition impl_results (ops : list fop) : list sres :=
+  map fproj_res (snd (wrun (init_world_linux 18) (map impl_call ops))).
+Definition spec_results (ops : list fop) : list sres := snd (fspec_run empty_state ops).
+
+(* a world and a specification state in the relation: /tmp/a just created through one handle *)
+Definition NAME_A : str := [97%N].
+Definition w_one : world := Eval vm_compute in fst (wrun (init_world_linux 18) [impl_call (Open NAME_A 66 420)]).
+Definition st_one : fstate := Eval vm_compute in fst (fspec_run empty_state [Open NAME_A 66 420]).
+Definition ptr_one (i : nat) : nat := (4 + i)%nat.
+
+Lemma Rel_one : Rel ptr_one w_one st_one.
+Proof.
+  constructor.
+  - vm_compute. eexists. split; [reflexivity|]. split; reflexivity.
+  - intros v Hv. vm_compute in Hv. inversion Hv; subst. vm_compute. reflexivity.
+  - vm_compute. reflexivity.
+  - intros i ino Hi. destruct i as [|[|i]]; vm_compute in Hi; try discriminate.
+    inversion Hi; subst. split; [vm_compute; reflexivity|]. eexists. vm_compute. reflexivity.
+  - intros i j Hi Hj. unfold ptr_one. lia.
+  - intros v name i Hv Hl. vm_compute in Hv. inversion Hv; subst.
+    unfold lookup_name in Hl.
+    change (st_names st_one) with [(NAME_A, 0%nat)] in Hl. cbn [alookup] in Hl.
+    destruct (str_eqb_spec name NAME_A) as [->|Hne]; [|discriminate]. inversion Hl; subst.
+    split; [vm_compute; lia|]. constructor. intros slm. destruct slm; vm_compute; auto.
+  - vm_compute. constructor; [|constructor]. repeat split; auto; discriminate.
+Qed.
